@@ -96,6 +96,19 @@ class Ctx:
                       'the rule would otherwise pass vacuously)' % (count, floor))
 
 
+def _evaluated(self, rule, count, expected):
+    """soft floor of an exact-formula rule: it gives a verdict only where the code is straight-line arithmetic; on any
+    other shape it records 'not evaluated' (the structural rules of the same clause still apply) and never alarms.
+    The count is kept in the evidence; tools/run_all.sh asserts that on /repo HEAD every such rule is fully evaluated."""
+    self.soft_floors = getattr(self, 'soft_floors', {})
+    self.soft_floors[rule] = (count, expected)
+    if count < expected:
+        self.note(rule, 'evaluated %d of the %d instances evaluated on the reference tree' % (count, expected))
+
+
+Ctx.evaluated = _evaluated
+
+
 def load_known():
     p = os.path.join(VERIF, 'known_findings.json')
     if not os.path.exists(p):
@@ -146,6 +159,8 @@ def finish(ctx, t0, seed, extract_info, explanation, not_decided, assumptions):
             'samples': samples,
             'rules': ctx.rule_docs,
             'floors': {k: {'matched': v[0], 'floor': v[1]} for k, v in ctx.floors.items()},
+            'formula_rules_evaluated': {k: {'evaluated': v[0], 'on_reference_tree': v[1]}
+                                        for k, v in getattr(ctx, 'soft_floors', {}).items()},
             'analysed': {'bodies_in_crate': ctx.F.n_bodies, 'bodies_read_for_this_property': len(ctx.bodies_read),
                          'bodies': sorted(ctx.bodies_read)[:200], 'facts': extract_info},
             'not_decided': not_decided,
